@@ -229,6 +229,11 @@ pub fn run(env: &Env) -> PropRun {
         None
     };
     parts.push(run_part(env, "enum-sequences", stotal, true, &format!("sizes {{1x1,2x2,3x3}} x all DECSTBM forms x all sequences of {} scroll/move commands", len), &smake, &j));
+    {
+        use gen::*;
+        let gl = |src: &mut Src, _i: usize| large_case(src, true, &[(CAT_LINES, 10), (CAT_C0, 6), (CAT_ESCFE, 5), (CAT_STBM, 4), (CAT_TEXT, 3), (CAT_CUP, 4), (CAT_SGR, 2), (CAT_REL, 2)], 12);
+        parts.push(random_part(env, "large-screens", env.tier.scale(500, 40), &gl, &j));
+    }
     parts.push(random_part(env, "random-histories", env.tier.scale(60_000, 40), &gen_random, &j));
     PropRun {
         parts,
